@@ -146,6 +146,8 @@ def c01_read_live(run, model, rule="C01.read-live", kinds=("PRE",)):
     for role, ck in checkers(model).items():
         run.saw(ck.flow)
         for kind in kinds:
+            if not ck.by_kind.get(kind):
+                run.violation(rule, "%s:%s" % (ck.fi.qual, kind), "no call in the wrapper hands the live `%s` list of the checker object to its evaluation (the list is cached, copied or read from elsewhere)" % {"PRE": "__preconditions__", "SNAP": "__postcondition_snapshots__", "POST": "__postconditions__"}[kind], ck.fi.loc())
             for ev in ck.by_kind.get(kind, []):
                 src = ck.wr.list_source(ev["list_term"])
                 ok = src == ck.wr.self_term
